@@ -1,4 +1,5 @@
 import Txtpp.Lemmas.SinkFacts
+import Txtpp.Lemmas.CliFacts
 import Txtpp.Lemmas.VerifyRel
 import Txtpp.Lemmas.VerifyProject
 /-!
@@ -96,5 +97,14 @@ theorem verify_pass_ok_iff_output_up_to_date_where_checked (cfg : Cfg) (hb : cfg
       ((runPass cfg.toVerify a src first).1 = .ok ↔
         ((runPass cfg a src first).1 = .ok ∧ (runPass cfg a src first).2.file? o = a.file? o)) :=
   verify_iff_where_checked cfg hb a src first hs
+
+/-- entry layer: `txtpp verify …` runs in verify mode with the flags written behind `verify`; what
+stands in front of the sub-command (`-N`, `-n`, …) has no effect -/
+theorem cli_verify_maps_to_verify_mode (p : CliParsed) (f : CliFlags) (b : CliBuildFlags) (h : p.sub = some (.verify f b)) :
+    p.config.mode = .verify ∧ p.config.recursive = f.recursive ∧ p.config.inputs = f.inputs ∧
+    p.config.trailingNewline = !b.noTrailingNewline ∧ p.config.shellCmd = b.shell ∧
+    ∀ fl bl n, ({ p with flags := fl, build := bl, needed := n } : CliParsed).config = p.config :=
+  ⟨(verify_mode p f b h).1, (verify_mode p f b h).2.1, (verify_mode p f b h).2.2.1, (verify_mode p f b h).2.2.2.1,
+   (verify_mode p f b h).2.2.2.2, fun fl bl n => sub_ignores_top_level p _ h fl bl n⟩
 
 end C06
